@@ -97,15 +97,19 @@ impl Monitor for C17 {
             ("foreign_dirs_or_symlinks_named_like_wal_files", tier.pick(300, 6_000)),
             ("renumberings_with_gaps_survived", tier.pick(300, 6_000)),
             ("calls_compared_with_clean_twin", tier.pick(40_000, 800_000)),
+            ("squatter_cases_entry_untouched", tier.pick(200, 5_000)),
         ]
     }
     fn rule(&self) -> String {
-        "case = one generated roll-over/GC-heavy history run on a directory seeded (before the first open and again between restarts) with foreign entries: near-miss names (19/21 digits, non-digit, other case/prefix, number not fitting u64, non-ASCII digits with a 24-byte name, trailing newline, dot-prefixed), ordinary files, and sub-directories / symlinks (to a WAL file, dangling) named exactly like WAL files with numbers outside the live range; at some restarts the valid WAL files are renumbered with gaps; evaluation = one traced path-carrying syscall (open/create/read/write/ftruncate/unlink/rename) whose basename must match ^wal-[0-9]{20}$ and refer to a regular file (the directory itself may be opened read-only), or one foreign entry re-verified (type, size, content hash, link target) or one call compared with a twin log running the same history on a clean directory; distinct_nontrivial = distinct (foreign name, syscall kind it coexisted with) pairs and distinct path-event kinds x file numbers".into()
+        "case = one generated roll-over/GC-heavy history run on a directory seeded (before the first open and again between restarts) with foreign entries: near-miss names (19/21 digits, non-digit, other case/prefix, number not fitting u64, non-ASCII digits with a 24-byte name, trailing newline, dot-prefixed), ordinary files, and sub-directories / symlinks (to a WAL file, dangling) named exactly like WAL files with numbers outside the live range; at some restarts the valid WAL files are renumbered with gaps; evaluation = one traced path-carrying syscall (open/create/read/write/ftruncate/unlink/rename) whose basename must match ^wal-[0-9]{20}$ and refer to a regular file (the directory itself may be opened read-only), or one foreign entry re-verified (type, size, content hash, link target) or one call compared with a twin log running the same history on a clean directory; one case in eight is a 'squatter' scenario: a symlink to a file outside the directory / a dangling symlink / a sub-directory sits exactly at the next file name the library will create; the call may fail with an I/O error but nothing may be written through, created or replaced; distinct_nontrivial = distinct (foreign name, syscall kind it coexisted with) pairs and distinct path-event kinds x file numbers".into()
     }
     fn assumptions(&self) -> Vec<String> {
         vec!["sub-directories / symlinks named exactly like WAL files are only placed at numbers the log will never create (below the oldest live file or above 2^40): a name collision with a future file makes create fail with an I/O error, which the statement does not forbid".into()]
     }
     fn run_case(&self, ctx: &Ctx, case: u64, acc: &mut Acc) {
+        if case % 8 == 7 {
+            return squatter_case(ctx, case, acc);
+        }
         let parts = ctx.case_seed(case);
         let mut rng = Rng::from_parts(&parts);
         let profile = *rng.pick(&[Profile::Gc, Profile::Gc, Profile::Gc, Profile::Idle, Profile::Mixed, Profile::Huge]);
@@ -377,4 +381,99 @@ impl Monitor for C17 {
             }
         }
     }
+}
+
+/// A foreign entry sits exactly where the library will want to create its NEXT file
+/// (`wal-<current+1>`, or `wal-0` in an empty directory): a symlink to a file outside the WAL
+/// directory, a dangling symlink, or a sub-directory.  The library may fail the call with an
+/// I/O error (the statement does not forbid that) but it must not write through the symlink,
+/// create its target, or touch the entry.
+fn squatter_case(ctx: &Ctx, case: u64, acc: &mut Acc) {
+    let parts = ctx.case_seed(case);
+    let mut rng = Rng::from_parts(&parts);
+    let dir = ctx.scratch.sub("c17-squat");
+    let outside = ctx.scratch.sub("c17-outside");
+    let key = parts[2];
+    let mut precious = vec![0u8; rng.usize(10, 200_000)];
+    rng.fill(&mut precious);
+    let precious_path = outside.join("precious.dat");
+    std::fs::write(&precious_path, &precious).expect("write precious");
+    let ghost_path = outside.join("does-not-exist.bin");
+    let kind = rng.below(3);
+    let at_first_file = rng.chance(1, 5);
+    let n = if at_first_file { 0 } else { 1 + rng.below(2) };
+    let name = format!("wal-{:020}", n);
+    let ok = match kind {
+        0 => std::os::unix::fs::symlink(&precious_path, dir.join(&name)).is_ok(),
+        1 => std::os::unix::fs::symlink(&ghost_path, dir.join(&name)).is_ok(),
+        _ => std::fs::create_dir(dir.join(&name)).is_ok(),
+    };
+    if !ok {
+        acc.inconclusive("could not place the squatting entry".to_string());
+        return;
+    }
+    let kind_name = ["symlink-to-outside-file", "dangling-symlink", "sub-directory"][kind as usize];
+    acc.count("squatter_cases");
+    acc.count(&format!("squatter_{}", kind_name));
+    crate::shim::reset_all();
+    crate::shim::set_root(&dir);
+    let mut events: Vec<Ev> = Vec::new();
+    let mut calls = Vec::new();
+    let policy = if rng.chance(1, 2) { Policy::AlwaysFlush } else { Policy::DoNothing };
+    match Sut::open(&dir, policy, key, true) {
+        Err(e) => calls.push(format!("open -> {:?}", e)),
+        Ok(mut sut) => {
+            let q = "squat".to_string();
+            let o = sut.apply(0, &Op::Create { q: q.clone() });
+            calls.push(format!("create_queue -> {:?}", o));
+            for k in 1..=12usize {
+                let o = sut.apply(k, &Op::Append { q: q.clone(), pos: None, lens: vec![rng.usize(20_000, 60_000)], chained: false });
+                calls.push(format!("append -> {:?}", o));
+                if o.is_io_err() {
+                    acc.count("squatter_calls_failing_with_io_error_(allowed)");
+                    break;
+                }
+            }
+            events.extend(crate::shim::take_events(&dir));
+            sut.close(99);
+        }
+    }
+    events.extend(crate::shim::take_events(&dir));
+    crate::shim::reset_all();
+    acc.eval();
+    let detail = |what: &str| json!({"squatter": {"name": name, "kind": kind_name}, "calls": calls, "violated": what, "events_naming_it": events.iter().filter(|e| e.brief().contains(&name)).map(|e| e.brief()).collect::<Vec<_>>()});
+    // the entry itself
+    let md = std::fs::symlink_metadata(dir.join(&name));
+    let still = match (&md, kind) {
+        (Ok(m), 0) => m.file_type().is_symlink() && std::fs::read_link(dir.join(&name)).map(|t| t == precious_path).unwrap_or(false),
+        (Ok(m), 1) => m.file_type().is_symlink() && std::fs::read_link(dir.join(&name)).map(|t| t == ghost_path).unwrap_or(false),
+        (Ok(m), _) => m.is_dir(),
+        _ => false,
+    };
+    if !still {
+        acc.violation(format!("C17/squatting-entry-replaced-or-removed/{}", kind_name), case, detail("the foreign entry is gone or was replaced"));
+        return;
+    }
+    if std::fs::read(&precious_path).map(|d| d != precious).unwrap_or(true) {
+        acc.violation(format!("C17/wrote-through-symlink-into-foreign-file/{}", kind_name), case, detail("a file outside the WAL directory was modified"));
+        return;
+    }
+    if ghost_path.exists() || std::fs::read_dir(&outside).map(|r| r.count()).unwrap_or(0) != 1 {
+        acc.violation(format!("C17/created-a-file-that-is-not-a-wal-file/{}", kind_name), case, detail("a file was created outside the WAL naming scheme (through a dangling symlink)"));
+        return;
+    }
+    // no successful open / write / truncate / unlink through the squatting name
+    for e in &events {
+        let bad = match e {
+            Ev::Open { name: n2, err: 0, .. } | Ev::Ftruncate { name: n2, err: 0, .. } | Ev::Unlink { name: n2, err: 0, .. } => n2 == &name,
+            Ev::Write { name: n2, data, .. } => n2 == &name && !data.is_empty(),
+            _ => false,
+        };
+        if bad {
+            acc.violation(format!("C17/used-the-squatting-entry-as-a-wal-file/{}", kind_name), case, detail(&format!("event: {}", e.brief())));
+            return;
+        }
+    }
+    acc.count("squatter_cases_entry_untouched");
+    acc.sample(|| json!({"case": case, "scenario": "squatter", "name": name, "kind": kind_name, "calls": calls.iter().rev().take(3).collect::<Vec<_>>()}));
 }
